@@ -10,7 +10,7 @@ mkdir -p build evidence replays
 exec 9>build/.lock
 flock 9
 if [ -f translator/translate.py ]; then
-  /venv/bin/python -P translator/translate.py || echo "TRANSLATOR-FAILED" > build/translator.status
+  /venv/bin/python -P translator/translate.py || { [ -s build/translator.status ] || echo "TRANSLATOR-FAILED" > build/translator.status; }
 fi
 cd "$V/coq"
 if [ ! -f Makefile ] || [ _CoqProject -nt Makefile ]; then
